@@ -85,6 +85,12 @@ CLAIMS = {
             "around the data size; composite objects round-trip with dry-run length = written length and identical re-encoding; wrong passwords never open a key.",
             "Trusted: TLC and the TLA+ definitions. Tolerated (either answer): non-minimal OID subidentifiers, non-zero BIT STRING padding bits, the empty bit string, invalid UTF-8, base64 spare bits.",
             "4/C14"),
+    "C15": ("model_checking",
+            "TLC model checking of X509Obj.tla + trace validation of issue / parse / verify / lookup events against X509Trace.tla",
+            "Objects are issued through the library over classes of admissible field values, parsed back and compared field by field by TLC; verification must succeed exactly under the issuing key and signer ID on the untouched object "
+            "(other key, other IDs and single-bit modifications must fail); CRL lookup must report a serial exactly when it is listed.",
+            "Trusted: TLC, the driver's record of the supplied fields. Field values are seeded class representatives.",
+            "4/C15"),
     "C18": ("fault_enumeration",
             "TLC model checking of Entropy.tla + link-time getentropy interposition with a failure injected at every draw index, validated against EntropyTrace.tla",
             "Every randomised API operation and the three handshakes in both roles are run clean, on an equal and a different entropy stream, repeated within one stream, and with the source failing at each draw index; "
